@@ -59,7 +59,10 @@ def run(chk: harness.Check):
     # scaling fits the scaled quantity (scale.rs → Quantity::fit → fit_fraction): "multiplied by f as a physical amount
     # (whatever unit it is then fitted to)" needs both ends of a re-expressed range converted to the new unit
     import c09
-    c09.d5_fit_range(chk, F, rule="C08.D5-fit-range")
+    sub = harness.Check("C09", chk.tier)
+    c09.run(sub)
+    harness.fold(chk, sub, lambda r: "C08.D5-fit" if r.startswith("C09.") else r,
+                 keep=lambda r: r in ("C09.D5-fit-range", "C09.D3-errors-before-mutation", "C09.D4-designated", "C09.D8-value-unit-together", "anchor-missing"))
     if chk.tier == "thorough":
         import thorough
         ok, n, out = thorough.witnesses()
